@@ -98,7 +98,7 @@ claim("C05",
       "DESIGN.md §4 C05")
 
 claim("C03",
-      "edge-cut dominance of credential checks + who-may-write on credential/flags + eraser cover rule + derived-key lifetime (pairing) rule",
+      "edge-cut dominance of credential checks + who-may-write on credential/flags + eraser cover rule + derived-key lifetime (pairing) rule + control-dependence of Lock's wipe on the unlocked flag (dominance)",
       "Static necessary conditions of 'private keys usable only with the current passphrase; Lock wipes them', on every CFG path: unlock, export, delete, private/public passphrase change and import store their effects only behind the success edge of a check of the caller's passphrase against the stored credential (salted hash or scrypt digest); a keystore is created/imported only under the passphrase that an existing keystore accepts (same variable as the one it is stored under); the stored credential and the unlocked flags are written only by unlock/change/load/erase; clearPrivKeys zeroes every private-hierarchy field that any function fills (and drops the pointers other code tests for nil) and Lock applies it to every keystore; every scrypt key derived from the private passphrase is zeroed or consumed by unlocking on all paths to the operation's return (found D4, fixed); passphrase change covers all keystores in one transaction; Unlock marks the manager unlocked only if no keystore failed; a keystore added to an unlocked manager is unlocked with it.",
       "Trusted: go/ssa, snacl.SecretKey.DeriveKey verifies the digest, private-hierarchy fields identified by struct field name. NOT decided: behaviour after a restart as a value fact, effectiveness of zeroing at machine level (GC copies), partial unlock when a later keystore fails for a non-passphrase reason, timing side channels.",
       "DESIGN.md §4 C03")
